@@ -1,7 +1,7 @@
 (* C14/ProofsTsAns.v — every answer of the TSI store model is the projection of the abstract set. *)
 From Coq Require Import Permutation.
 From Verif Require Import C14.Spec C14.Model C14.ProofsBase C14.ProofsQuery C14.ProofsSfile
-     C14.ProofsLsmA C14.ProofsLsmB C14.ProofsLsmC C14.ProofsLsmD C14.ProofsLsmE C14.ProofsLsmH C14.ProofsTs.
+     C14.ProofsLsmA C14.ProofsLsmB C14.ProofsLsmC C14.ProofsLsmD C14.ProofsLsmE C14.ProofsLsmH C14.ProofsConv C14.ProofsTs.
 
 (* ---------- counting ---------- *)
 
@@ -141,7 +141,7 @@ Section Answers.
   Theorem ts_answer_ok q : wf_query n q = true -> answer_equiv (ts_answer rx st q) (spec_answer rx n A q).
   Proof.
     intros Hq. pose proof db_refines as R. pose proof (tk_sf _ _ _ OK) as Isf. fold sf in Isf.
-    destruct q as [c|m c|m k c|m c|sh m c| | ]; cbn [ts_answer spec_answer answer_equiv]; fold sf db U.
+    destruct q as [c|m c|m k c|m c|sh m c|sh bsz small m c| | ]; cbn [ts_answer spec_answer answer_equiv]; fold sf db U.
     - (* names *)
       destruct c as [p|]; cbn [answer_equiv]; intros r; rewrite In_dedup_rows, !in_map_iff;
         split; intros [m [E H]]; exists m; (split; [exact E|]).
@@ -153,6 +153,20 @@ Section Answers.
     - intros r. rewrite !In_dedup_rows. apply (q_tagvals_ok rx db sf L U R).
     - intros r. rewrite In_dedup_rows. apply (q_series_ok rx db sf L U R).
     - cbn [wf_query] in Hq. intros r. rewrite In_dedup_rows. apply (q_series_ok rx _ sf _ _ (sh_ref sh Hq)).
+    - (* the shard converted offline *)
+      cbn [wf_query] in Hq. apply andb_true_iff in Hq. destruct Hq as [Hv Hb]. apply Nat.leb_le in Hb.
+      set (keys := map snd (filter (fun p => Nat.eqb (fst p) sh) (ts_data st))).
+      assert (Hkeys : forall s, In s keys <-> In (sh, s) A).
+      { intros s. unfold keys. rewrite in_map_iff. split.
+        - intros [[sh' s'] [E H]]. cbn in E. subst s'. apply filter_In in H. destruct H as [H Es]. cbn in Es.
+          apply Nat.eqb_eq in Es. subst sh'. apply (tk_data _ _ _ OK). exact H.
+        - intros H. exists (sh, s). split; [reflexivity|]. apply filter_In. split; [apply (tk_data _ _ _ OK); exact H|].
+          cbn. apply Nat.eqb_refl. }
+      pose proof (conv_lists_keys rx sf keys bsz small (shard_set A sh) m c Isf) as HC.
+      destruct (cv_index sf keys bsz small) as [sf' t]. cbn [fst snd answer_equiv] in *.
+      intros r. rewrite In_dedup_rows. apply HC; [| |exact Hb].
+      + intros s Hs. apply Hkeys in Hs. apply (tk_A _ _ _ OK sh s Hs).
+      + intros s. rewrite In_shard_set, Hkeys. tauto.
     - (* cardinalities *)
       f_equal.
       + f_equal. fold L. apply (card_eq sf); [apply NoDup_iunions|apply NoDup_db_set| | |].
